@@ -323,7 +323,7 @@ class Metadata(CbMixin, ProgMixin):
                 path = Path(os.path.join(*partials))
                 full = Path(os.path.join(path, key))
                 length = val[""]["length"]
-                root = val[""]["pieces root"]
+                root = val[""].get("pieces root")
                 self.files.append({
                     "path": path,
                     "full": full,
@@ -380,8 +380,9 @@ class Metadata(CbMixin, ProgMixin):
             paths = filemap[filename]
             for path, size in paths:
                 if size == length:
-                    hasher = HasherV2(path, self.piece_length, True)
-                    if entry["root"] == hasher.root:
+                    if length:
+                        hasher = HasherV2(path, self.piece_length, True)
+                    if not length or entry["root"] == hasher.root:
                         dest_path = os.path.join(dest, entry["full"])
                         copypath(path, dest_path)
                         self._update()
